@@ -1143,7 +1143,7 @@ func ruleOneBatchPerNode(w *core.World, r *core.Report) {
 	var scanIdx *ssa.Phi
 	for _, in := range core.OwnInstrs(f) {
 		cmp, ok := in.(*ssa.BinOp)
-		if !ok || cmp.Op != token.EQL {
+		if !ok || (cmp.Op != token.EQL && cmp.Op != token.NEQ) {
 			continue
 		}
 		for _, side := range []ssa.Value{cmp.X, cmp.Y} {
